@@ -6,11 +6,13 @@
 
 mod checks;
 mod eng_disk;
+mod eng_sched;
 mod eng_store;
 mod eng_txm;
 mod fw;
 mod model_graph;
 mod prng;
+mod simlock;
 mod probe;
 
 use fw::Tier;
